@@ -314,7 +314,8 @@ def strata():
                      gen_cfg.model_and_spec(want_mc=True, force=['out_many_formals', 'inout_mix']),
                      gen_cfg.model_and_spec(want_mc=True, force=['outer_enum', 'partial_spelling']),
                      gen_cfg.model_and_spec(want_mc=True, force=['many_ports', 'global_enc']),
-                     gen_cfg.model_and_spec(want_mc=True, force=['many_provides', 'prefix_ports'])]
+                     gen_cfg.model_and_spec(want_mc=True, force=['many_provides', 'prefix_ports']),
+                     gen_cfg.model_and_spec(want_mc=True, force=['sub_events'])]
 
 
 def with_histories(n_hist):
